@@ -22,6 +22,15 @@ def main(tier, rep):
                                       seed=common.seed() + mp, cfg_extra={"max_pool": mp}, quick_stride=4)
     progs += L.gen_fault_programs(["client", "hash"], L.ALL_OPS, tier, interrupts=True, seed=common.seed(),
                                   quick_stride=4)
+    # a reply read up to an end token of the caller's (raw_command): interrupted in each of its reads and sends, always run
+    for kind in ("client", "pooled"):
+        for ik in L.INTERRUPT_KINDS:
+            for where in (("recv", 1), ("recv", 2), ("sendall", 1)):
+                for warm in (False, True):
+                    steps = ([("call", "set", False, None, "all")] if warm else []) + \
+                            [("call", "raw_command_stats", None, {where: ik}, "bytes"), ("tick", 1),
+                             ("call", "get", None, None, "all"), ("call", "raw_command", None, None, "all"), ("call", "add", False, None, "all")]
+                    progs.append((L.Cfg(kind=kind, max_pool=1), steps))
     # an idle-expired pooled connection is closed inside the next call: that close() is an interruption point too
     n = common.seed()
     for kind in ("pooled", "hashpooled"):
